@@ -325,6 +325,9 @@ def read_cgsmiles(pattern):
                         # store the previous anchor so we can do the math for nested
                         # branches
                         prev_anchor = ref_anchor
+                    # the next copy is attached to the anchor of this copy and
+                    # not to the anchor of its last nested branch
+                    prev_node = base_anchor
                 # all branches added; then go back to the base anchor
                 prev_node = base_anchor
             #================================================
